@@ -29,6 +29,8 @@ type appCase struct {
 	Env    EnvState
 	Stream StreamPlan
 	Desc   interface{}
+
+	altArgv func(t *Tape) []string // another command line for the same application (nil: none)
 }
 
 var c20TreePhase = PhaseCfg{P: map[string]int{"maxdepth": 3}}
@@ -52,7 +54,12 @@ func genAppCase(t *Tape) *appCase {
 		return genSpecApp(t)
 	case 4:
 		c := genContainer(t)
-		return &appCase{Kind: "container", App: c.App, Argv: c.Argv, Env: c.Env, Desc: c.Describe()}
+		return &appCase{Kind: "container", App: c.App, Argv: c.Argv, Env: c.Env, Desc: c.Describe(), altArgv: func(t *Tape) []string {
+			if t.Draw(2) == 0 {
+				return []string{"app"}
+			}
+			return c.Argv2
+		}}
 	default:
 		c := c19Prop{}.Gen(t, nil).(*c19Case)
 		return &appCase{Kind: "probe", App: c.App, Argv: c.Argv, Env: c.Env, Desc: c.Describe()}
@@ -69,7 +76,8 @@ func genSpecApp(t *Tape) *appCase {
 	argv := append([]string{"app"}, s.toks...)
 	env := envFor(t, ds.All(), func(d *Decl) bool { return t.Draw(2) == 1 })
 	return &appCase{Kind: "spec", App: app, Argv: argv, Env: env,
-		Desc: map[string]interface{}{"decls": describeDecls(ds), "spec": root.Spec, "argv": argv, "policy": policyName(app.Policy)}}
+		Desc:    map[string]interface{}{"decls": describeDecls(ds), "spec": root.Spec, "argv": argv, "policy": policyName(app.Policy)},
+		altArgv: func(t *Tape) []string { return append([]string{"app"}, genSentence(t, node, ds, 1).toks...) }}
 }
 
 // twinOf returns an application with the same names and the same spec string as a spec app
@@ -313,8 +321,14 @@ func (c20Prop) Gen(t *Tape, ph *PhaseCfg) Case {
 			if prev.Kind == "spec" && t.Draw(2) == 0 {
 				c.Apps = append(c.Apps, twinOf(t, prev))
 			} else {
-				// the very same description, built again
+				// the very same description (the same declarations, hence the same default objects of the
+				// user's program), built again, with the same or with another command line
 				cp := *prev
+				if prev.altArgv != nil && t.Draw(3) != 0 {
+					cp.Argv = prev.altArgv(t)
+					cp.Kind = prev.Kind + "-sibling"
+					cp.Desc = map[string]interface{}{"same_declarations_as": prev.Desc, "argv": cp.Argv}
+				}
 				c.Apps = append(c.Apps, &cp)
 			}
 			continue
@@ -345,9 +359,16 @@ func (c20Prop) Exec(cc Case, st *Stats) *Violation {
 	n := len(c.Apps)
 	r1 := make([]appOutcome, n)
 	r2 := make([]appOutcome, n)
+	decls := make([]*AppDecl, n)
+	for i, a := range c.Apps {
+		decls[i] = a.App
+	}
 	for i, a := range c.Apps {
 		st.Count("app_kind." + a.Kind)
+		// every solo run is a history of its own: it starts from pristine user-program state
+		resetWorld(decls...)
 		r1[i] = runSolo(a, nil)
+		resetWorld(decls...)
 		r2[i] = runSolo(a, nil)
 		if d := diffOutcome(r1[i], r2[i], map[string]bool{"accepted": true, "values_in_action": true, "values_final": true}); d != "" {
 			return &Violation{Clause: "rebuild-determinism map-order", Detail: fmt.Sprintf("application %d built and run twice alone gives different results: %s", i, d), Observed: map[string]interface{}{"first": r1[i], "second": r2[i]}}
@@ -372,7 +393,8 @@ func (c20Prop) Exec(cc Case, st *Stats) *Violation {
 			return v
 		}
 	}
-	// all together, under the scheduler
+	// all together, under the scheduler: one history, starting from pristine user-program state
+	resetWorld(decls...)
 	procs := make([]*Proc, n)
 	insts := make([]*Instance, n)
 	bodies := make([]func() error, n)
@@ -468,7 +490,12 @@ func c20SoloOutcomes(t *Tape) {
 	outs := []appOutcome{}
 	if c.Mode == "concurrent" {
 		c.Env.Apply()
+		decls := []*AppDecl{}
 		for _, a := range c.Apps {
+			decls = append(decls, a.App)
+		}
+		for _, a := range c.Apps {
+			resetWorld(decls...)
 			outs = append(outs, runSolo(a, nil))
 		}
 	}
@@ -488,10 +515,17 @@ func raceWorld(t *Tape) (mismatch string) {
 	n := len(c.Apps)
 	r1 := make([]appOutcome, n)
 	r2 := make([]appOutcome, n)
+	decls := make([]*AppDecl, n)
 	for i, a := range c.Apps {
+		decls[i] = a.App
+	}
+	for i, a := range c.Apps {
+		resetWorld(decls...)
 		r1[i] = runSolo(a, nil)
+		resetWorld(decls...)
 		r2[i] = runSolo(a, nil)
 	}
+	resetWorld(decls...)
 	procs := make([]*Proc, n)
 	insts := make([]*Instance, n)
 	var wg sync.WaitGroup
